@@ -15,7 +15,7 @@
 (***************************************************************************)
 EXTENDS FindingsC04
 
-CONSTANT Repaired     \* subset of 1..14: findings F-C04-n repaired in the tree under test
+CONSTANT Repaired     \* subset of 1..15: findings F-C04-n repaired in the tree under test
 
 StillOpen(n) == n \notin Repaired
 
@@ -26,6 +26,7 @@ Reached(via, opts) ==
    /\ StillOpen(3) => ~HasEdge(via, "encoding", "headers")
    /\ StillOpen(4) => ~HasEdge(via, "header", "examples")
    /\ StillOpen(5) => ~(HasEdge(via, "schema", "discriminator") \/ HasEdge(via, "schema", "xml"))
+   /\ StillOpen(15) => ~HasEdge(via, "link", "server")
 
 (* the loader refuses a reference whose target is missing wherever it looks for references at all *)
 LoaderVisits(x) == StillOpen(10) => (~UnvisitedByLoader(x) /\ ~HasEdge(x.via, "mediaType", "encoding") /\ ~HasEdge(x.via, "header", "examples"))
